@@ -21,10 +21,16 @@ ASSUMPTIONS = [
     "keepalive / retry_required / reject_power_state strobes occur only in U0 and, after a re-entry, only once the "
     "advertisement has been transmitted (their sources need a completed bring-up)",
     "a header that arrives from one cycle before the link goes down until re-entry may or may not count as "
-    "received: both advertisements are accepted provided the DUT then accepts advertised+1 (consistency)",
+    "received: both advertisements are accepted provided the DUT then accepts advertised+1 (consistency); but a "
+    "header the advertisement counts as received must really have been received: it was offered on `queue` (or "
+    "acknowledged by its LGOOD) at some cycle before re-entry -- not judged when an older header still occupied the "
+    "head of the queue when the link went down (the counted header may sit behind it, unobservable)",
+    "the link is never down for less than 12 cycles: LTSSM leaves U0 only into Recovery.Active, which needs a "
+    "complete TS1 burst, a TS2 burst, 16 more TS2 and the idle handshake (>150 cycles) before U0 is re-entered; "
+    "one- or two-cycle outages are not generated",
 ]
 
-AIM_KINDS = ["any", "LGOOD", "LCRD", "LBAD", "LRTY", "LUP", "LXU", "uniform"]
+AIM_KINDS = ["any", "LGOOD", "LCRD", "LBAD", "LRTY", "LUP", "LXU", "uniform"]     # + "HDR": end of a received header
 AIM_CMD = {"LGOOD": R.LGOOD, "LCRD": R.LCRD, "LBAD": R.LBAD, "LRTY": R.LRTY, "LUP": R.LUP, "LXU": R.LXU}
 CMD_LABEL = {R.LGOOD: "LGOOD", R.LCRD: "LCRD", R.LBAD: "LBAD", R.LRTY: "LRTY", R.LUP: "keepalive", R.LXU: "LXU"}
 
@@ -48,8 +54,12 @@ def down_strategy():
 def case_strategy():
     d = C37.traffic_strategy(max_ops=12, avg_ops=5, allow_wrongseq=False)
     d["down"] = down_strategy()
-    d["aim"] = st.tuples(weighted([(k, {"LBAD": 3, "LXU": 1, "uniform": 1}.get(k, 2)) for k in AIM_KINDS]),
-                         st.integers(0, 31), st.integers(-3, 6)).map(list)
+    cmd_aim = st.tuples(weighted([(k, {"LBAD": 3, "LXU": 1, "uniform": 1}.get(k, 2)) for k in AIM_KINDS]),
+                        st.integers(0, 31), st.integers(-3, 6)).map(list)
+    # link-down instant = <cycle of the last word of the idx-th header the partner sends> + offset: covers the cycles in
+    # which the header is checked, counted, buffered, first offered on the queue and its LGOOD dispatched
+    hdr_aim = st.tuples(st.just("HDR"), st.integers(0, 31), st.integers(-2, 8)).map(list)
+    d["aim"] = weighted([(0, 3), (1, 1)]).flatmap(lambda k: hdr_aim if k else cmd_aim)
     return st.fixed_dictionaries(d)
 
 
@@ -73,9 +83,11 @@ class ReentrySub(Sub):
     rule = ("C37 closed-loop traffic (headers, corruption, LBAD/LRTY cycles, queue/source stalls, keepalive/LRTY/LXU "
             "strobes) into HeaderPacketReceiver(4); a first run learns the DUT's link-command schedule, the second "
             "takes the link down (plain disable / warm reset / hot reset) at <start of the aimed command kind> + "
-            "offset (-3..+6) or at a uniform cycle; the partner keeps sending in-flight headers and training traffic "
+            "offset (-3..+6), at <last word of a header the partner sends> + offset (-2..+8; a quarter of the cases) or "
+            "at a uniform cycle; the partner keeps sending in-flight headers and training traffic "
             "while down; after 12..90 cycles the link comes back. Oracle: the command words transmitted after "
-            "re-entry begin with exactly LGOOD(last received number; 7 after a reset) LCRD A B C D, the queue is "
+            "re-entry begin with exactly LGOOD(last received number; 7 after a reset) LCRD A B C D, a header around the "
+            "edge that the advertisement counts was offered on the queue or acknowledged before re-entry, the queue is "
             "empty, and the C37 rules hold for the traffic after re-entry starting at advertised+1 (no stale "
             "LBAD/LRTY/keepalive, no stale ignore flag). Non-trivial: the link went down (or the reset arrived) "
             "inside a command transmission (cycle in which the command is dispatched .. its last word) and at "
@@ -102,10 +114,13 @@ class ReentrySub(Sub):
             return fail(err[1], signature="source-malformed")
         kind, idx, off = case["aim"]
         n1 = len(trace1)
-        pool = cmds1 if kind in ("any", "uniform") else [c for c in cmds1 if c["cmd"] == AIM_CMD[kind]]
+        hdr_pool = B.sink_headers(drv1.log[:n1]) if kind == "HDR" else []
+        pool = cmds1 if kind in ("any", "uniform", "HDR") else [c for c in cmds1 if c["cmd"] == AIM_CMD[kind]]
         if not pool and kind != "uniform":
             pool = cmds1                       # the aimed kind does not occur in this history: aim at any command
-        if kind == "uniform" or not pool:
+        if hdr_pool:
+            down_at = hdr_pool[idx % len(hdr_pool)]["end"] + off
+        elif kind == "uniform" or not pool:
             down_at = 3 + idx * max(1, n1 - 6) // 32
         else:
             down_at = pool[idx % len(pool)]["start"] + off
@@ -205,6 +220,43 @@ class ReentrySub(Sub):
             return fail(f"{where}: advertisement is LGOOD({a}); the last received header number is {allowed} "
                         f"(accepted before the link went down: {[h['seq'] for h in model.accepted]}, acknowledged: "
                         f"{acked[1:]})", signature=sig)
+        # ---- "last received": a header the advertisement counts was really received (offered to the protocol layer
+        # or acknowledged) and not merely counted.  Only headers around the edge can be concerned (the others are
+        # judged by C37); nothing is demanded when an older header occupied the queue head at the link-down instant.
+        counted = []
+        if a != base[0]:
+            nxt = base[1]
+            while True:
+                counted.append(nxt)
+                if nxt == a:
+                    break
+                nxt = (nxt + 1) & 7
+
+        def q(t):
+            o = trace[t]
+            return (o.q0, o.q1, o.q2, o.qseq, o.qrsv, o.qhub, o.qdl, o.qdf)
+        blocked_by = None
+        for seq in counted:
+            cands = [h for h in optional if h["seq"] == seq and h["crc16_ok"] and h["crc5_ok"]]
+            if not cands:
+                continue
+            fields = {C37.hdr_fields(h) for h in cands}
+            first_end = min(h["end"] for h in cands)
+            offered = [t for t in range(first_end + 1, up_at) if trace[t].qvalid and q(t) in fields]
+            lgood = [c for c in cmds_pre if c["cmd"] == R.LGOOD and c["sub"] == seq and c["start"] > first_end]
+            if offered or lgood:
+                continue
+            older = [t for t in (t_evt - 1, t_evt) if 0 <= t < n and trace[t].qvalid and q(t) not in fields]
+            if older:
+                blocked_by = older[0]
+                continue
+            h = cands[0]
+            return fail(f"{where}: advertisement LGOOD({a}) counts header seq {seq} (last word in cycle {h['end']}, "
+                        f"{t_evt - h['end']} cycles before the link went down) as received, but that header was never "
+                        f"offered on the queue (queue.valid was low in cycles {max(0, t_evt - 1)}..{t_evt}, "
+                        f"queue.ready={[log[t]['qready'] for t in range(max(0, t_evt - 1), t_evt + 1)]}) nor "
+                        f"acknowledged before re-entry: it was counted while being discarded, the partner will retire "
+                        f"it and it is lost", signature="header-counted-but-never-accepted")
         # ---- fresh state: queue empty, traffic after re-entry handled per C37 starting at advertised + 1
         post_headers = [h for h in headers if h["end"] >= up_at]
         first_post_end = min([h["end"] for h in post_headers], default=n)
@@ -253,6 +305,13 @@ class ReentrySub(Sub):
             labels.add("ignoring-at-down")
         if optional:
             labels.add("header-arrives-while-down")
+        if kind == "HDR" and hdr_pool:
+            labels.add("aimed-at-header-end")
+        for h in headers:
+            if h["end"] < up_at and -2 <= t_evt - h["end"] <= 8 and h["crc16_ok"] and h["crc5_ok"]:
+                labels.add(f"down-at-header-end{t_evt - h['end']:+d}")
+        if counted:
+            labels.add("edge-header-counted-blocked" if blocked_by is not None else "edge-header-counted-and-offered")
         if any(not (h["crc16_ok"] and h["crc5_ok"]) for h in optional):
             labels.add("bad-header-while-down")
         if d["sready_down"] is not None and in_cmd:
